@@ -76,6 +76,10 @@ CHECKS = {
          'Bounded symbolic verification over a table of 41 command lines x 4 seeds and 9 seeded library generators: any dependence of the output on randomness drawn before seeding or on object identity is refuted with the two distinguishing values; correct runs are confirmed on their single concrete path.',
          'Trusted: the two-phase RNG stub (same seed => same stream is assumed), the repr stub. Outside: PYTHONHASHSEED, working directory, command lines not in the table.',
          'DESIGN.md section 3 C07'),
+ 'C15': ('CrossHair/z3 exploration of ALL outcomes of the random draws (nondeterministic RNG stub, bounded tape) and of numeric arguments across the legal boundary through make_graph_from_spec; deterministic adversarial draw streams for the retry/fallback code',
+         'Bounded verification: for the stated small sizes every random outcome yields the promised structure and every out-of-range or non-numeric argument is refused with ValueError; larger requests are covered for six adversarial draw streams only (stated as such).',
+         'Trusted: RNG stub contract, independent constructions / networkx isomorphism test, CrossHair accounting. Outside: random outcomes beyond the tape bound, larger sizes.',
+         'DESIGN.md section 3 C15'),
 }
 NA = {}
 
